@@ -29,7 +29,7 @@ pub static DEF: PropDef = PropDef {
 };
 
 /// inspect_T : T -> 1, whose principal source type is exactly T
-fn inspect<'b>(ctx: &types::Context<'b>, t: &RT) -> CNode<'b> {
+pub fn inspect<'b>(ctx: &types::Context<'b>, t: &RT) -> CNode<'b> {
     match t {
         RT::Unit => CNode::unit(ctx),
         RT::Sum(a, b) => {
@@ -46,14 +46,14 @@ fn inspect<'b>(ctx: &types::Context<'b>, t: &RT) -> CNode<'b> {
 }
 
 #[derive(Clone, Copy, Debug, PartialEq, Eq)]
-enum Pos {
+pub enum Pos {
     Executed,
     /// under the right branch of a case that is driven to the left
     Unexecuted,
 }
 
 /// host program 1 -> 1 with one witness node of type t
-fn host<'b>(ctx: &types::Context<'b>, t: &RT, pos: Pos, wit: Option<Value>) -> CNode<'b> {
+pub fn host_core<'b>(ctx: &types::Context<'b>, t: &RT, pos: Pos, wit: Option<Value>) -> CNode<'b> {
     let w = CNode::witness(ctx, wit);
     let used = CNode::comp(&w, &inspect(ctx, t)).unwrap();
     match pos {
@@ -67,9 +67,31 @@ fn host<'b>(ctx: &types::Context<'b>, t: &RT, pos: Pos, wit: Option<Value>) -> C
     }
 }
 
+/// The follower has type 2^2 * 1, which is none of the host types (two witness nodes of one type
+/// holding one value would be a single shared node).
+pub fn follower_value() -> Value {
+    Value::product(Value::u2(3), Value::unit())
+}
+
+/// the follower's value: both bits set, so that a witness stream read at the wrong offset shows
+pub fn follower_bits() -> Vec<bool> {
+    vec![true, true]
+}
+
+/// The host of `host_core`, followed (in witness-stream order) by a second, always executed witness
+/// node of type 2^2 * 1: a decoder that consumes the wrong number of bits for the first witness cannot
+/// hide behind the zero padding at the end of the stream.
+pub fn host<'b>(ctx: &types::Context<'b>, t: &RT, pos: Pos, wit: Option<Value>) -> CNode<'b> {
+    let first = host_core(ctx, t, pos, wit);
+    let w2 = CNode::witness(ctx, Some(follower_value()));
+    let second = CNode::comp(&w2, &inspect(ctx, &RT::prod(&RT::word(1), &RT::unit()))).unwrap();
+    CNode::comp(&CNode::pair(&first, &second).unwrap(), &CNode::unit(ctx)).unwrap()
+}
+
 fn host_types(thorough: bool) -> Vec<Rc<RT>> {
     let mut v = types_upto(if thorough { 3 } else { 2 });
     v.extend([RT::word(3), RT::word(5), RT::sum(&RT::unit(), &RT::word(3))]);
+    v.extend(crate::reference::tyval::padding_flag_family(if thorough { 7 } else { 6 }));
     v
 }
 
@@ -139,11 +161,13 @@ fn run_route(t: &Rc<RT>, pos: Pos, vt: &Rc<RT>, v: &Rc<RV>, route: Route, out: &
                     names.push(item.node.name().clone());
                 }
             }
-            if names.len() != 1 {
+            if names.len() != 2 {
                 return Err(("host:reparse".into(), format!("{} witness names", names.len())));
             }
+            // post order: the witness under test, then the follower
             let mut map: HashMap<Arc<str>, Value> = HashMap::new();
             map.insert(names[0].clone(), val.shallow_clone());
+            map.insert(names[1].clone(), follower_value());
             types::Context::with_context(|ctx| {
                 let n = forest.to_witness_node(&ctx, &map).ok_or("no main".to_string())?;
                 if route == Route::HumanMapUnpruned {
@@ -157,7 +181,9 @@ fn run_route(t: &Rc<RT>, pos: Pos, vt: &Rc<RT>, v: &Rc<RV>, route: Route, out: &
             // program bytes of the host (with a zero witness), witness stream = compact bits of the candidate
             let base = types::Context::with_context(|ctx| host(&ctx, t, pos, None).finalize_unpruned()).map_err(|e| ("host:finalize".to_string(), e.to_string()))?;
             let pb = base.to_vec_without_witness();
-            let wb = crate::reference::bits::bits_to_bytes(&v.compact());
+            let mut wbits = v.compact();
+            wbits.extend(follower_bits());
+            let wb = crate::reference::bits::bits_to_bytes(&wbits);
             RedeemNode::decode::<_, _, Core>(BitIter::from(pb.as_slice()), BitIter::from(wb.as_slice())).map_err(|e| e.to_string())
         }
     };
